@@ -40,8 +40,7 @@ ASSUMPTIONS = c01.ASSUMPTIONS + [
     "state-dependent validators are harness callbacks (one rule shape: reject iff a watched field of the instance "
     "handed in holds a value whose text contains 'bad'); the Lean model knows the rules (Case.veto) and the order in "
     "which the generated initializer calls validators",
-    "layout facts instHasDict / copyNeedsAll are read from the real class of the instance (like isSlot)",
-    "resolvesOnTuple lists only the tuple/object attribute names the generator uses (K12a)",
+    "layout fact copyNeedsAll is read from the real class of the instance (like isSlot)",
 ]
 EXHAUSTIVE = {"quick": False, "thorough": False}
 BUDGET_S = {"quick": 40, "thorough": 420}
@@ -51,9 +50,10 @@ LEVEL_TEXT = ("Lean: evolve is defined through the initializer model, so the C01
               "validator's exception after the callbacks of a direct call up to it), C12_evolve_trace (a successful evolve "
               "runs exactly the callbacks of a direct call), C12_unknown_typeerror, C12_typeerror_iff, C12_assoc_spec (raw "
               "replacement, no callback runs, unset fields stay unset), C12_assoc_unknown_notfound (every non-field name "
-              "outside K12a), C12_evolve_identity, C12_assoc_identity (named fields hold the very object given -- also when "
+              "-- tuple attributes like count / index / __len__ included), C12_assoc_notfound_iff, C12_tuple_names_rejected (the "
+              "repaired K12a), C12_evolve_identity, C12_assoc_identity (named fields hold the very object given -- also when "
               "it equals the old one -- and the others share the original's), C12_result_invariants, C12_model_meets_spec; "
-              "witnesses for K2, K3, K12a. Tied to /repo by differential correspondence over class chains (incl. mixed "
+              "witnesses for K2, K3. Tied to /repo by differential correspondence over class chains (incl. mixed "
               "slotted/dict storage and plain subclasses) x validator behaviour x histories x change sets, observing result "
               "values read back with getattr, which object each field holds (identity with the passed / the original's "
               "object), the callback trace of the operation, evolve against a direct call of the class with the same "
@@ -101,7 +101,8 @@ def _veto_rule(veto, exc_kind="plain"):
 CLEAN_NAMES = ["nope", "x_", "__attrs_attrs__", "__match_args__", "__setstate__", "__slots__", "__weakref__",
                "_attrs_cached_hash", "__attrs_post_init__", "__attrs_pre_init__", "__attrs_init__",
                "describe", "LIMIT", "area", "zz_note"]
-# ... and those that resolve on every fields tuple (Lean: resolvesOnTuple; known finding K12a for assoc)
+# ... and those that resolve on every fields tuple (attributes of tuple / object): no fields either (K12a, repaired
+# in /repo: assoc used to take them for fields) -- unless a class really has a field of that name (see _rename_fields)
 TUPLE_NAMES = ["count", "index", "__len__", "__doc__", "__module__", "__getstate__", "__init__"]
 
 
@@ -181,17 +182,29 @@ def _history(h, ctor, hist, veto=None, veto_exc="plain"):
     return inst, ib.read_values(inst, names), C
 
 
+def _rename_fields(node, mapping):
+    """rename fields throughout a hierarchy spec (real chain and siblings alike): a pure renaming, so every repair
+    gen_hspec made stays valid"""
+    if isinstance(node, dict):
+        if "default" in node and node.get("name") in mapping:
+            node["name"] = mapping[node["name"]]
+        for v in node.values():
+            _rename_fields(v, mapping)
+    elif isinstance(node, list):
+        for v in node:
+            _rename_fields(v, mapping)
+
+
 def layout_facts(inst):
     gs = getattr(type(inst), "__getstate__", None)
-    return {"instHasDict": hasattr(inst, "__dict__"),
-            "copyNeedsAll": getattr(gs, "__name__", None) == "slots_getstate"}
+    return {"copyNeedsAll": getattr(gs, "__name__", None) == "slots_getstate"}
 
 
 def make_case(h, ctor, hist, op, changes, cur, passed_as="sub", veto=(), facts=None, veto_exc="plain"):
     run, is_define, cls_on = ib.run_in(h)
-    facts = facts or {"instHasDict": True, "copyNeedsAll": True}
+    facts = facts or {"copyNeedsAll": True}
     return {"base": {"run": run, "call": {"pos": [], "kw": []}, "isDefine": is_define, "clsOnSet": cls_on},
-            "op": op, "cur": cur, "changes": changes, "veto": list(veto), "instHasDict": facts["instHasDict"],
+            "op": op, "cur": cur, "changes": changes, "veto": list(veto),
             "copyNeedsAll": facts["copyNeedsAll"],
             "hspec": h, "ctor": ctor, "hist": hist, "passed_as": passed_as, "veto_exc": veto_exc}
 
@@ -214,6 +227,9 @@ def gen_cases(tier, rng):
     for _ in range(n_classes):
         h = ib.gen_hspec(rng)
         h["classes"][-1].pop("init", None)   # evolve goes through cls(...): a class without generated __init__ is out of scope
+        if rng.random() < 0.12:
+            # fields that are themselves named like attributes of every tuple: genuine fields all the same
+            _rename_fields(h, {"w": "count", "z": "index"})
         for cs in h["classes"]:
             if cs["kind"] == "attrs" and not cs.get("cache_hash") and rng.random() < 0.4:
                 cs["unsafe_hash"] = True
@@ -281,7 +297,7 @@ def gen_cases(tier, rng):
                 chosen = rng.sample(keys, k)
                 if rng.random() < 0.2:
                     r = rng.random()
-                    pool = TUPLE_NAMES if r < 0.15 else near if (r < 0.4 and near) else CLEAN_NAMES
+                    pool = TUPLE_NAMES if r < 0.25 else near if (r < 0.45 and near) else CLEAN_NAMES
                     bad_name = rng.choice(pool)
                     if bad_name not in taken:
                         chosen.insert(rng.randint(0, len(chosen)), (bad_name, None))
